@@ -14,7 +14,8 @@ func init() { register("C19", checkC19) }
 
 var fuzzBytes = map[string]string{"NL": "\n", "CR": "\r", "CTRL1": "\x01", "NUL": "\x00", "UTF8": "é", "BAD8": "\xff\xfe",
 	"DEFSELF": "\n##!> define x {{x}}\n", "DEFGROW": "\n##!> define x a{{x}}\n", "DEFCYC1": "\n##!> define x {{y}}\n", "DEFCYC2": "\n##!> define y b{{x}}\n",
-	"DEFOK": "\n##!> define x b+\n", "STOREX": "\n##!=< x\n", "LOADX": "\n##!=> x\n", "INCLF": "\n##!> include f\n", "INCLSELF": "\n##!> include t\n"}
+	"DEFOK": "\n##!> define x b+\n", "STOREX": "\n##!=< x\n", "LOADX": "\n##!=> x\n", "INCLF": "\n##!> include f\n", "CMDUNIX": "\n##!> cmdline unix\n", "ENDBLK": "\n##!<\n",
+	"INCLDEL": "\n##!> include f -- @ \"\"\n", "INCLQUOTE": "\n##!> include f -- c \"\n", "INCLSELF": "\n##!> include t\n"}
 
 func checkC19(c *Ctx) error {
 	exLen, simNum, simDepth, keepMod := 2, 3, 12, uint64(1)
@@ -85,7 +86,7 @@ func checkC19(c *Ctx) error {
 		return err
 	}
 	os.MkdirAll(root+"/regex-assembly/include", 0o755)
-	os.WriteFile(root+"/regex-assembly/include/f.ra", []byte("inc\n"), 0o644)
+	os.WriteFile(root+"/regex-assembly/include/f.ra", []byte("inc\n@\n"), 0o644)
 	os.WriteFile(root+"/regex-assembly/include/x.ra", []byte("inc\n"), 0o644)
 	var cli, crashes int64
 	classes := map[string]int{}
@@ -191,7 +192,7 @@ func checkC19(c *Ctx) error {
 	c.Cov["cli_executions"] = cli
 	c.Cov["outcome_classes"] = classes
 	c.Cov["exhaustive"] = false
-	c.Cov["rule"] = "design level: MC_Cleanup proves NoCrash and Terminates for the character-level transcription of the clean-up passes on all texts up to the bound over 10 characters, and the real passes are compared with it on each of them; " + fmt.Sprintf("texts are token sequences generated by TLC from MC_Fuzz (82 tokens: directive fragments, metacharacters, escapes incl. the escaped-parenthesis-flag family and \\Q quoting that ends in an open bracket, braces, quotes, NUL/control/non-ASCII/invalid UTF-8 bytes): all sequences of <= %d tokens (1/%d sampled) plus random sequences up to %d tokens; each text goes to `generate -` and every 4th also into an include file; the longest expressions and a sample also go through compare (text and github, single and --all) and update against a rules file with a short stored operand; allowed: exit 0, exit 1, or exit 2 with a deliberate panic message; a runtime error, a Go fatal error, a signal or no termination within 10 s is a violation; non-trivial = text of at least 2 bytes, distinct by text", exLen, keepMod, simDepth)
+	c.Cov["rule"] = "design level: MC_Cleanup proves NoCrash and Terminates for the character-level transcription of the clean-up passes on all texts up to the bound over 10 characters, and the real passes are compared with it on each of them; " + fmt.Sprintf("texts are token sequences generated by TLC from MC_Fuzz (86 tokens: directive fragments, metacharacters, escapes incl. the escaped-parenthesis-flag family and \\Q quoting that ends in an open bracket, braces, quotes, NUL/control/non-ASCII/invalid UTF-8 bytes): all sequences of <= %d tokens (1/%d sampled) plus random sequences up to %d tokens; each text goes to `generate -` and every 4th also into an include file; the longest expressions and a sample also go through compare (text and github, single and --all) and update against a rules file with a short stored operand; allowed: exit 0, exit 1, or exit 2 with a deliberate panic message; a runtime error, a Go fatal error, a signal or no termination within 10 s is a violation; non-trivial = text of at least 2 bytes, distinct by text", exLen, keepMod, simDepth)
 	c.Summary = fmt.Sprintf("texts=%d cli=%d classes=%v", len(texts), cli, classes)
 	return nil
 }
